@@ -73,4 +73,9 @@ for sid,(prop,needs,by,notes) in INFO.items():
           'apply':'git -C /repo apply seeded/%s/%s'%(sid,'patch.rebased.diff' if os.path.exists(os.path.join(src,'patch.rebased.diff')) else 'patch.diff'),
           'reported_by':by,'notes':notes}
     json.dump(meta,open(os.path.join(dst,'meta.json'),'w'),indent=1)
-print(len(os.listdir('/verif/seeded')),'seeded changes')
+rows=['# Seeded changes', '', 'Each directory holds patch.diff (plus patch.rebased.diff where the pinned patch no longer applies to the repaired tree), the demonstration, the author\'s NOTES.md, my verify.log and meta.json.', '', '| id | property | needs in order to manifest | reported by | notes |', '|---|---|---|---|---|']
+for sid,(prop,needs,by,notes) in INFO.items():
+    if os.path.isdir(os.path.join('/verif/seeded',sid)):
+        rows.append('| %s | %s | %s | %s | %s |'%(sid,prop,needs.replace('|','\\|'),', '.join(by) or '-',notes.replace('|','\\|')))
+open('/verif/seeded/INDEX.md','w').write('\n'.join(rows)+'\n')
+print(len([d for d in os.listdir('/verif/seeded') if os.path.isdir(os.path.join('/verif/seeded',d))]),'seeded changes')
